@@ -1,4 +1,5 @@
-import Juniper.Proofs.TreeGet
+import Juniper.Proofs.TreeOps
+import Juniper.Proofs.TreeIter
 /-!
 # C01 — tree.Map/Set answer every call exactly like an ideal sorted map (property theorems)
 
@@ -140,5 +141,99 @@ theorem last_refines (cmp : K → K → Int) (t : Tree K V) (hw : WF cmp t) : la
       omega
     simp only [lastEmpty, h0, decide_false, Bool.false_eq_true, if_false]
     exact ((last_leaf t.root h hbal hn).1).symm
+
+/-- `Range(lo, hi)` on a tree that is not modified meanwhile yields exactly the entries inside the
+bounds — for all 9 pairs of `Included`/`Excluded`/`Unbounded` and any bound positions (inverted bounds
+give the empty list) — once each, in ascending key order, with their current values. The seek per
+lower-bound kind and the `While` predicate per upper-bound kind are the generated switch tables. -/
+theorem range_refines (cmp : K → K → Int) (hc : StrictWeak cmp) (t : Tree K V) (hi : Inv cmp t) (lo hi' : Bound K)
+    (hlk : lo.kind ≠ none) (hhk : hi'.kind ≠ none) :
+    ∃ it, range cmp t lo hi' = some it ∧ ∀ fuel, (toList t.root).length < fuel →
+      drain cmp t fuel it = (srange cmp lo hi' (toList t.root)).map outOf :=
+  range_refines_fwd hc hi lo hi' hlk hhk
+
+/-- `RangeReverse(lo, hi)`: the same entries in descending order. -/
+theorem rangeRev_refines (cmp : K → K → Int) (hc : StrictWeak cmp) (t : Tree K V) (hi : Inv cmp t) (lo hi' : Bound K)
+    (hlk : lo.kind ≠ none) (hhk : hi'.kind ≠ none) :
+    ∃ it, rangeReverse cmp t lo hi' = some it ∧ ∀ fuel, (toList t.root).length < fuel →
+      drain cmp t fuel it = ((srange cmp lo hi' (toList t.root)).reverse).map outOf :=
+  Juniper.Proofs.Tree.rangeRev_refines hc hi lo hi' hlk hhk
+
+/-- the ideal range is what the property says: a sublist of the contents (each entry at most once, in
+order) containing exactly the entries whose key is inside the bounds -/
+theorem srange_spec (cmp : K → K → Int) (lo hi : Bound K) (L : List (K × V)) :
+    (srange cmp lo hi L).Sublist L ∧
+    ∀ e, e ∈ srange cmp lo hi L ↔ e ∈ L ∧ aboveLo cmp lo e.1 = true ∧ belowHi cmp hi e.1 = true := by
+  refine ⟨List.filter_sublist, fun e => ?_⟩
+  simp [srange, List.mem_filter]
+
+/-- `Iterate` is `Range(Unbounded, Unbounded)` (generated forwarding fact) and yields the whole map. -/
+theorem iterate_eq_range_unbounded (cmp : K → K → Int) (hc : StrictWeak cmp) (t : Tree K V) (hi : Inv cmp t) (k0 : K) :
+    mapForwards = true ∧ setForwards = true ∧
+    ∃ it, range cmp t ⟨some .unb, k0⟩ ⟨some .unb, k0⟩ = some it ∧ ∀ fuel, (toList t.root).length < fuel →
+      drain cmp t fuel it = (toList t.root).map outOf := by
+  refine ⟨by decide, by decide, ?_⟩
+  obtain ⟨it, h1, h2⟩ := range_refines_fwd hc hi ⟨some .unb, k0⟩ ⟨some .unb, k0⟩ (by simp) (by simp)
+  refine ⟨it, h1, fun fuel hf => ?_⟩
+  rw [h2 fuel hf]
+  have : srange cmp ⟨some .unb, k0⟩ ⟨some .unb, k0⟩ (toList t.root) = toList t.root := by
+    unfold srange; apply List.filter_eq_self.mpr; intro e _; simp [aboveLo, belowHi]
+  rw [this]
+
+/-- **Every history.** Running any sequence of `Put`/`Delete`/`Get`/`Contains`/`Len`/`First`/`Last`/
+`Range`/`RangeReverse` calls (any bounds) on the model from the empty tree and on the ideal sorted map
+from the empty list gives the same outputs call by call; no call dereferences a nil pointer; the only
+panics are the "unknown bound" panics of a zero `Bound`. -/
+theorem history_refines (cmp : K → K → Int) (hc : StrictWeak cmp) (os : List (Op K V)) :
+    ∃ t' outs, runOps cmp (Tree.empty : Tree K V) os = some (t', outs) ∧
+      specOps cmp ([] : List (K × V)) os = (toList t'.root, outs) := by
+  obtain ⟨t', outs, h1, _, h3⟩ := runOps_refines hc os Tree.empty (inv_empty cmp)
+  exact ⟨t', outs, h1, by simpa [Tree.empty] using h3⟩
+
+/-- non-vacuity of `history_refines`: a concrete history on `Int` keys with the natural order. -/
+example : ∃ t' : Tree Int Int, ∃ outs,
+    runOps (fun a b => a - b) Tree.empty [.put 2 20, .put 1 10, .put 2 21, .get 2, .len, .first] = some (t', outs) ∧
+      toList t'.root = [(1, 10), (2, 21)] := by
+  have hc : StrictWeak (fun a b : Int => a - b) := ⟨by intro a b; omega, by intro a b c; omega⟩
+  obtain ⟨t', outs, h1, h2⟩ := history_refines (V := Int) _ hc [.put 2 20, .put 1 10, .put 2 21, .get 2, .len, .first]
+  refine ⟨t', outs, h1, ?_⟩
+  have := congrArg Prod.fst h2
+  simp [specOps, specOp, sput] at this
+  exact this.symm
+
+/-- A `Set` is a `Map` to `struct{}`: `Add`/`Remove`/`Contains`/`Len`/`First`/`Last`/`Range` forward to the
+same B-tree operations (generated forwarding fact), so every theorem above holds with `V := Unit`. -/
+theorem set_refines (cmp : K → K → Int) (hc : StrictWeak cmp) (os : List (Op K Unit)) :
+    setForwards = true ∧ setIsHandle = true ∧
+    ∃ t' outs, runOps cmp (Tree.empty : Tree K Unit) os = some (t', outs) ∧
+      specOps cmp ([] : List (K × Unit)) os = (toList t'.root, outs) :=
+  ⟨by decide, by decide, history_refines cmp hc os⟩
+
+/-- Concurrent clause, the part a sequential model can state (**partial**; the full clause — "puts from
+several goroutines to distinct present keys concurrent with reads of other keys are free of data races
+and all take effect" — additionally rests on the Go memory model: disjoint plain accesses do not race;
+supporting evidence is the `-race` stress harness `c01race`).
+`Put` of a key that is present writes exactly one value slot: the tree's generation, size, allocation
+counter and its whole skeleton (node identities, keys, occupancy, child links) are unchanged, and the
+contents change only in that entry's value (`put_refines`); the generated fact `putOverwriteOnly` says
+that the overwrite branch consists of the single assignment `curr.values[idx] = v` followed by `return`. -/
+theorem putPresent_footprint_partial (cmp : K → K → Int) (hc : StrictWeak cmp) (t : Tree K V) (k : K) (v : V)
+    (hw : WF cmp t) (hpres : (sget cmp k (toList t.root)).isSome = true) :
+    putOverwriteOnly = true ∧
+    ∃ t', put cmp t k v = some t' ∧ t'.gen = t.gen ∧ t'.size = t.size ∧ t'.nextId = t.nextId ∧
+      skel t'.root = skel t.root := by
+  refine ⟨by decide, ?_⟩
+  obtain ⟨h, hbal, hmax, _⟩ := hw.bal
+  have hb := bal_ins cmp k v t.root t.nextId h hbal hmax
+  have hr := ins_refines hc k v t.root t.nextId h hbal hmax hw.sorted
+  have hsk := ins_found_skel cmp k v t.root t.nextId
+  unfold put
+  rcases hres : ins cmp k v t.root t.nextId with ⟨res, f⟩
+  rw [hres] at hb hr hsk
+  cases res with
+  | crash => exact hb.elim
+  | found r => exact ⟨_, rfl, rfl, rfl, rfl, hsk r rfl⟩
+  | one r => rw [hr.2] at hpres; cases hpres
+  | split l sep r => rw [hr.2] at hpres; cases hpres
 
 end Juniper.Props.C01
